@@ -201,7 +201,10 @@ static void do_send(World &W, size_t src, size_t dst, int cls, const Op &op)
 	{
 		l.send_failed = true;
 		W.res.cnt["probe.sends_failed"]++;
-		// whatever was accepted stays in the model as "maybe sent": nothing after it is asserted
+		// The elements of an array that were framed completely before a later element was refused are on the wire
+		// with valid tags: they stay in the model as sent (a receiver may deliver them, e.g. when an array boundary
+		// shifts after a value was lost to IV damage); nothing is asserted about their arrival
+		for (size_t i = 0; i < k && i < vals.size(); i++) { l.sent.push_back(vals[i]); l.sent_ok.push_back(false); }
 	}
 	for (size_t k2 = 0; k2 < ms.size(); k2++) { mpz_clear(ms[k2]); delete [] ms[k2]; }
 	W.S.hist.add(H_OP, 10, src * 16 + dst, ok ? 1 : 0);
